@@ -24,6 +24,7 @@ use vp_core::Tier;
 #[derive(Clone, Debug, PartialEq)]
 enum C {
     Tick(i32, bool), // step, keyframe
+    TickAbs(i32, bool), // absolute tick number, keyframe
     Snap(usize),
     Delta(usize),
     Msg(usize),
@@ -104,6 +105,12 @@ fn write_read(seq: &[C], pl: &[Vec<u8>], ms: &[Vec<u8>], hdr: (usize, usize, usi
                     if !first {
                         tick += step;
                     }
+                    first = false;
+                    w.write_chunk(RawChunk::Tick { tick, keyframe: *key }).map_err(|e| format!("write tick: {:?}", e))?;
+                    expected.push(Out::Tick(tick, *key));
+                }
+                C::TickAbs(t, key) => {
+                    tick = *t;
                     first = false;
                     w.write_chunk(RawChunk::Tick { tick, keyframe: *key }).map_err(|e| format!("write tick: {:?}", e))?;
                     expected.push(Out::Tick(tick, *key));
@@ -277,6 +284,35 @@ fn raw_level(run: &Arc<Run>, depth: usize) {
             }
         }
     });
+    // absolute tick numbers from one end of the range to the other (the raw writer only asks for
+    // increasing ticks): every pair a < b of the listed values, each with and without key frames
+    let mut marks: Vec<i32> = vec![i32::MIN, i32::MIN + 1, i32::MIN + 31, i32::MIN + 32, i32::MIN + 33, -(1 << 30), -(1 << 20), -65537, -65536, -257, -256, -255, -33, -32, -31, -2, -1, 0, 1, 31, 32, 33, 255, 256, 65535, 65536, 1 << 30, i32::MAX - 32, i32::MAX - 31, i32::MAX - 1, i32::MAX];
+    marks.sort_unstable();
+    let mut abs_cases: Vec<(i32, i32, bool, bool)> = Vec::new();
+    for (i, &a) in marks.iter().enumerate() {
+        for &b in &marks[i + 1..] {
+            for k in 0..4 {
+                abs_cases.push((a, b, k & 1 == 1, k & 2 == 2));
+            }
+        }
+    }
+    abs_cases.par_iter().for_each(|&(a, b, ka, kb)| {
+        run.add_evals(1);
+        let mut seq = vec![C::TickAbs(a, ka), C::Msg(1), C::TickAbs(b, kb), C::Msg(2)];
+        if b < i32::MAX - 40 {
+            seq.extend([C::Tick(1, false), C::Tick(32, false), C::Msg(3)]);
+        }
+        let gap = b as i64 - a as i64;
+        match vp_core::catch(|| write_read(&seq, &pl, &ms, (1, 1, 1, false))) {
+            Ok(Ok(_)) => run.class(&format!("absolute-ticks:{}:{}", if a < 0 { "from-negative" } else { "from-non-negative" }, if gap < 32 { "gap-inline" } else if gap <= i32::MAX as i64 { "gap-fits-i32" } else { "gap-beyond-i32" }), || json!({"ticks": [a, b]})),
+            Ok(Err(msg)) => {
+                run.violation("c15:raw:absolute-ticks", &format!("ticks {} -> {} (key frames {}, {}): {}", a, b, ka, kb, msg), json!({"ticks": [a, b], "chunks": format!("{:?}", seq)}));
+            }
+            Err(p) => {
+                run.violation(&format!("c15:raw:{}", vp_core::panic_sig(&p)), &format!("ticks {} -> {}: {}", a, b, p), json!({"ticks": [a, b], "chunks": format!("{:?}", seq)}));
+            }
+        }
+    });
 }
 
 // ---------------------------------------------------------------------------
@@ -420,7 +456,7 @@ fn main() {
     typed_level(&run, if thorough { 6 } else { 5 });
     run.assume("raw writer: tick numbers strictly increase (its documented precondition); payloads whose compressed form does not fit a 16-bit size are not 'accepted by the writer' and are not generated");
     run.finish(
-        "raw level: all chunk sequences up to the depth over {tick +1/+31/+32/+33, key-frame ticks, snapshot / delta payloads with compressed sizes on both sides of 29/30 and 255/256, messages of length 0,1,3,4,5,64,100}, every payload size incl. the largest representable, header strings of every length, every tick gap 1..1100 and around every power of two up to 2^30; typed level: all world histories up to the depth over 5 object sets (ordinal objects, UUID-typed objects of sizes 1 and 2) x tick steps {+1,+250,+251} x non-increasing ticks (must be refused, recording stays usable); written with the real writers into memory, read back with the real readers, compared chunk by chunk, zero warnings",
+        "raw level: all chunk sequences up to the depth over {tick +1/+31/+32/+33, key-frame ticks, snapshot / delta payloads with compressed sizes on both sides of 29/30 and 255/256, messages of length 0,1,3,4,5,64,100}, every payload size incl. the largest representable, header strings of every length, every tick gap 1..1100 and around every power of two up to 2^30, every pair of absolute tick numbers out of 31 values from i32::MIN to i32::MAX (negative ticks, gaps wider than i32::MAX); typed level: all world histories up to the depth over 5 object sets (ordinal objects, UUID-typed objects of sizes 1 and 2) x tick steps {+1,+250,+251} x non-increasing ticks (must be refused, recording stays usable); written with the real writers into memory, read back with the real readers, compared chunk by chunk, zero warnings",
         true,
     );
 }
